@@ -13,7 +13,7 @@ def cli_case(draw):
     qspec = draw(st.sampled_from(["one", "two", "none"]))
     cf = draw(st.sampled_from([0, 3, 10, 20])) if qspec == "two" else 0
     cb = draw(st.sampled_from([1, 3, 10, 15, 20, 30]))
-    nextseq = draw(st.one_of(st.none(), st.sampled_from([5, 10, 20])))
+    nextseq = draw(st.one_of(st.none(), st.sampled_from([5, 10, 20, 0])))
     if qspec == "none" and nextseq is None:
         nextseq = 10
     q2 = None
